@@ -140,7 +140,9 @@ pub fn end_case() {
 
 /// truncate for messages, on a char boundary
 pub fn trunc(s: &str, n: usize) -> &str {
-    if s.len() <= n {
+    // VERIF_FULL=1: keep whole schemas/values in oracle reports (for replaying a case by hand)
+    static FULL: std::sync::OnceLock<bool> = std::sync::OnceLock::new();
+    if s.len() <= n || *FULL.get_or_init(|| std::env::var("VERIF_FULL").is_ok()) {
         return s;
     }
     let mut k = n;
